@@ -5,6 +5,8 @@ CONSTANTS
   MaxDepth = 5
   MaxN = 4
   ScratchSize = "asfound"
+  Finished = "last"
+  EarlyExit = TRUE
 INVARIANT CodesOk
 INVARIANT Refines
 INVARIANT LevelData
